@@ -108,6 +108,8 @@ def tryit(a: int) -> int:
         return 0
 def compr(b: bytes) -> int:
     return sum([x for x in b])
+def compr_len(b: bytes) -> int:
+    return len([x for x in b])
 def kwcall(b: bytes) -> int:
     return int.from_bytes(b, byteorder="big")
 def decimal_unbounded(a: int) -> int:
@@ -155,6 +157,36 @@ def plat(a: int) -> int:
     if PLAT:
         return a
     return 0
+PAIRS = ((1, 0), (10, 4))
+def gen_sum(b: bytes) -> int:
+    return sum(b[i] << 1 for i in range(len(b)))
+def gen_sum_if(b: bytes) -> int:
+    return sum(x for x in b if x > 3)
+def gen_sum_raise(b: bytes, n: int) -> int:
+    return sum(b[i] for i in range(n))
+def _helper(t, n: int) -> int:
+    return sum(t) + n
+def uses_helper(b: bytes, n: int) -> int:
+    w = struct.unpack("<{}H".format(len(b) // 2), b)
+    return _helper(w, n)
+def pair_loop(v: int) -> int:
+    r = 0
+    for d, o in PAIRS:
+        r += (v * d) << o
+    return r
+def pairs_value(v: int) -> int:
+    return len(PAIRS) + v
+class Q(object):
+    def fill(self, n: int):
+        for x in range(4):
+            self.t[x] = n
+        return True
+    def fill_other(self, n: int):
+        self.t[0] = n
+        self.u[0] = n
+        return True
+def binones(a: int, n: int) -> int:
+    return bin(a)[2:n + 2].count('1')
 def cond_raise_while(b: bytes, j: int) -> int:
     while j > 0 and b[j] != 0:
         j -= 1
@@ -188,7 +220,8 @@ CASES = [   # (function, extra spec, expected substring of the error | None = mu
     ("bytes_mut", {}, "mutated in place"),
     ("decorated", {}, "decorator"),
     ("tryit", {}, "Try"),
-    ("compr", {}, "ListComp"),
+    ("compr", {}, None),                                     # sum([x for x in b]): inside the subset since `sum(<comprehension>)`
+    ("compr_len", {}, "ListComp"),
     ("kwcall", {}, "keyword arguments"),
     ("decimal_unbounded", {}, "not in the subset"),
     ("append_param", {"params": {"t": "ints"}}, "mutated in place"),
@@ -201,7 +234,19 @@ CASES = [   # (function, extra spec, expected substring of the error | None = mu
     ("two_whiles", {"fuel": ["a + 1", "c + 1"]}, None),
     ("py3", {}, None),                                       # `sys.version_info > (3,)`: the Python-3 branch only
     ("plat", {}, "sys.platform is not in the subset"),                       # any other module-level Bool is not a constant of the subset
-    ("cond_raise_while", {"fuel": "j + 1"}, None),           # short-circuit `and` with a raising right operand
+    ("cond_raise_while", {"fuel": "j + 1"}, None),
+    ("gen_sum", {}, None),                                   # sum over a generator expression
+    ("gen_sum_if", {}, "no `if`"),
+    ("gen_sum_raise", {}, "conditionally evaluated"),         # an element that can raise (IndexError) is refused
+    ("uses_helper", {}, None),                               # _helper is translated on demand
+    ("pair_loop", {}, None),                                 # for d, o in <module table of int pairs>
+    ("pairs_value", {}, "len() of pairs"),
+    ("Q.fill", {"params": {"self": ("Q", [("t", "ints")]), "n": "int"}, "mutates": ["t"]}, None),
+    ("Q.fill", {"params": {"self": ("Q", [("t", "ints")]), "n": "int"}}, "assignment to the attribute"),
+    ("Q.fill_other", {"params": {"self": ("Q", [("t", "ints"), ("u", "ints")]), "n": "int"}, "mutates": ["t"]},
+     "assignment to the attribute"),
+    ("binones", {}, "cannot show it is >= 0"),
+    ("binones", {"ranges": {"n": (0, 64)}}, None),           # short-circuit `and` with a raising right operand
 
 ]
 
